@@ -443,13 +443,13 @@ example : (GA.BodyIter.run (Iter.ofList [10, 11, 12, 13, 14]) [.nth 1, .nextBack
 /-- `nth(2)` with the destructor of element 0 panicking: the translated body drops 0 and 1 once and
     leaves the iterator at index 2, so its `Drop` releases 2, 3, 4 only (the repaired defect F1) -/
 example :
-    let c : Ctx := ⟨5, some 0, fun _ => false, fun _ => none, fun _ => .done, (0, none)⟩
+    let c : Ctx := ⟨5, some 0, fun _ => false, fun _ => none, fun _ => .done, (0, none), {}⟩
     let r := runFn c Gen.Body.dropIter.body Gen.Body.nth [.nat 2] (ofIter ⟨[0, 1, 2, 3, 4], 0, 5⟩)
     (drops r.1, r.2.1, r.2.2.self.index) = ([0, 1], R.panicked, 2) := by decide
 /-- `clone()` with `T::clone` panicking on its third call: the two clones made are dropped (the
     repaired defect F2) -/
 example :
-    let c : Ctx := ⟨4, none, fun _ => false, fun k => if k = 2 then none else some (1000 + k), fun _ => .done, (0, none)⟩
+    let c : Ctx := ⟨4, none, fun _ => false, fun k => if k = 2 then none else some (1000 + k), fun _ => .done, (0, none), {}⟩
     let r := runFn c Gen.Body.dropIter.body Gen.Body.clone [] (ofIter ⟨[0, 1, 2, 3], 0, 4⟩)
     (drops r.1, takes r.1, r.2.1) = ([1000, 1001], [1000, 1001], R.panicked) := by decide
 
